@@ -412,6 +412,7 @@ pub fn run(args: &[&str]) -> String {
         }
         "hand" => op_hand(args[1], args[2].parse().unwrap(), args[3]),
         "stats" => op_stats(args[1]),
+        "reconn" => op_reconn(args[1].parse().unwrap()),
         "name" => {
             // the piece file name the implementation derives from a listed hash
             let h = unhex(args[1]);
@@ -771,6 +772,10 @@ pub fn gen(r: &mut Rng, n: usize, flavor: &str) -> Vec<String> {
         }
     }
     if flavor == "C08" {
+        // a connection the client opened, lost after a valid session: nothing without a handshake afterwards either
+        out.push("reconn 2800".to_string());
+    }
+    if flavor == "C08" {
         // "the peer id the tracker announced for that address": the (address, id) pairs read from tracker replies —
         // entries with unusable ids or addresses in front of good ones, so that a pairing slip shows
         for _ in 0..(n / 4) {
@@ -859,4 +864,148 @@ pub fn gen_stats(r: &mut Rng) -> String {
         ops.push("t".into());
     }
     format!("stats {}", ops.join(","))
+}
+
+/// `reconn <wait ms>`: the real `PeerHandler::run_incoming` (a connection the client opens to a peer the tracker listed)
+/// over loopback TCP with a scripted manager. The peer completes a valid session (handshake, Interested, one request,
+/// which the manager lets the task serve), then closes the connection. Whatever the client does next, a connection on
+/// which no handshake has validated must not carry piece data: should the client connect to the address again, the party
+/// answering there sends Interested and a request without any handshake.
+/// → `first=<y|n> kill=<y|n> second=<y|n> piece2=<bytes of piece data on the second connection>`
+fn op_reconn(wait_ms: u64) -> String {
+    use crate::wire::M;
+    static COUNTER: std::sync::atomic::AtomicUsize = std::sync::atomic::AtomicUsize::new(0);
+    let n = COUNTER.fetch_add(1, std::sync::atomic::Ordering::SeqCst);
+    let base = std::env::current_dir().unwrap();
+    let dir = base.join(format!("reconn_{}_{}", std::process::id(), n));
+    std::fs::create_dir_all(&dir).unwrap();
+    std::env::set_current_dir(&dir).unwrap();
+    let r = catch(|| {
+        let rt = tokio::runtime::Builder::new_current_thread().enable_all().build().unwrap();
+        rt.block_on(async move {
+            let plen = 16384usize;
+            let h0 = piece_hash(0, plen, true);
+            std::fs::write(hash_to_string(&h0) + ".piece", content(0, plen)).unwrap();
+            let listener = tokio::net::TcpListener::bind("127.0.0.1:0").await.unwrap();
+            let addr = listener.local_addr().unwrap().to_string();
+            let info_hash = [7u8; 20];
+            let own_id = *b"-VF0001-000000000000";
+            let peer_id = [0x50u8; 20];
+            let (cmd_tx, mut cmd_rx) = mpsc::channel::<PeerCmd>(256);
+            let (_btx, brx) = broadcast::channel::<BroadCmd>(64);
+            let mut handler = PeerHandler::new(addr.clone(), own_id, Some(peer_id), info_hash, 2, cmd_tx, brx);
+            let task = tokio::spawn(async move { handler.run_incoming().await });
+            let mut killed = false;
+            // the scripted manager: we own piece 0 and have this peer unchoked
+            let answer = |cmd: PeerCmd, killed: &mut bool| match cmd {
+                PeerCmd::Init { resp_ch, .. } => {
+                    let raw = [0u8, 0, 0, 2, 5, 0x80];
+                    let mut crs = Cursor::new(&raw[..]);
+                    if let Ok(Frame::Bitfield(bf)) = Frame::parse(&mut crs) {
+                        let _ = resp_ch.send(InitCmd::SendBitfield { bitfield: bf });
+                    }
+                }
+                PeerCmd::RecvRequest { piece_index, resp_ch, .. } => {
+                    let _ = resp_ch.send(RequestCmd::LoadAndSendPiece { piece_index, piece_hash: piece_hash(piece_index, plen, true) });
+                }
+                PeerCmd::RecvNotInterested { resp_ch, .. } => {
+                    let _ = resp_ch.send(NotInterestedCmd::Ignore);
+                }
+                PeerCmd::RecvUnchoke { resp_ch, .. } => {
+                    let _ = resp_ch.send(UnchokeCmd::Ignore);
+                }
+                PeerCmd::RecvHave { resp_ch, .. } => {
+                    let _ = resp_ch.send(HaveCmd::Ignore);
+                }
+                PeerCmd::RecvBitfield { resp_ch, .. } => {
+                    let _ = resp_ch.send(BitfieldCmd::SendState { with_am_unchoked: true, am_interested: false });
+                }
+                PeerCmd::PieceDone { resp_ch, .. } | PeerCmd::PieceCancel { resp_ch, .. } => {
+                    let _ = resp_ch.send(PieceCmd::Ignore);
+                }
+                PeerCmd::KillReq { .. } => *killed = true,
+                _ => {}
+            };
+            // read from `s` for `ms`, answering manager commands meanwhile; returns the bytes of piece data seen
+            async fn listen(
+                s: &mut tokio::net::TcpStream,
+                cmd_rx: &mut mpsc::Receiver<PeerCmd>,
+                ms: u64,
+                answer: &dyn Fn(PeerCmd, &mut bool),
+                killed: &mut bool,
+                skip: usize,
+            ) -> usize {
+                let deadline = tokio::time::Instant::now() + std::time::Duration::from_millis(ms);
+                let mut buf: Vec<u8> = vec![];
+                let mut tmp = [0u8; 65536];
+                loop {
+                    tokio::select! {
+                        r = s.read(&mut tmp) => match r {
+                            Ok(0) | Err(_) => break,
+                            Ok(n) => buf.extend_from_slice(&tmp[..n]),
+                        },
+                        c = cmd_rx.recv() => match c { Some(c) => answer(c, killed), None => break },
+                        _ = tokio::time::sleep_until(deadline) => break,
+                    }
+                }
+                // frames after the client's own 68-byte handshake
+                let mut piece_bytes = 0usize;
+                let mut rest = if buf.len() >= skip { buf[skip..].to_vec() } else { vec![] };
+                loop {
+                    let mut crs = Cursor::new(&rest[..]);
+                    match Frame::parse(&mut crs) {
+                        Ok(f) => {
+                            let n = crs.position() as usize;
+                            if let Frame::Piece(p) = &f {
+                                piece_bytes += p.block_length();
+                            }
+                            rest.drain(..n);
+                        }
+                        Err(_) => break,
+                    }
+                }
+                piece_bytes
+            }
+            // connection 1: a valid session
+            let mut first = 0usize;
+            if let Ok(Ok((mut s1, _))) = tokio::time::timeout(std::time::Duration::from_secs(3), listener.accept()).await {
+                let _ = s1.write_all(&impl_data(&M::Hs(info_hash.to_vec(), peer_id.to_vec()))).await;
+                let _ = s1.write_all(&impl_data(&M::In)).await;
+                let _ = s1.write_all(&impl_data(&M::Rq(0, 0, 16384))).await;
+                first = listen(&mut s1, &mut cmd_rx, 700, &answer, &mut killed, 68).await;
+                drop(s1);
+            }
+            // does the client come back?
+            let mut second = false;
+            let mut piece2 = 0usize;
+            let deadline = tokio::time::Instant::now() + std::time::Duration::from_millis(wait_ms);
+            loop {
+                tokio::select! {
+                    a = listener.accept() => {
+                        if let Ok((mut s2, _)) = a {
+                            second = true;
+                            // no handshake from this side
+                            let _ = s2.write_all(&impl_data(&M::In)).await;
+                            let _ = s2.write_all(&impl_data(&M::Rq(0, 0, 16384))).await;
+                            piece2 = listen(&mut s2, &mut cmd_rx, 1200, &answer, &mut killed, 68).await;
+                        }
+                        break;
+                    }
+                    c = cmd_rx.recv() => match c { Some(c) => answer(c, &mut killed), None => break },
+                    _ = tokio::time::sleep_until(deadline) => break,
+                }
+            }
+            task.abort();
+            format!(
+                "first={} kill={} second={} piece2={}",
+                if first > 0 { "y" } else { "n" },
+                if killed { "y" } else { "n" },
+                if second { "y" } else { "n" },
+                piece2
+            )
+        })
+    });
+    std::env::set_current_dir(&base).unwrap();
+    let _ = std::fs::remove_dir_all(&dir);
+    r.unwrap_or_else(|_| "P".into())
 }
